@@ -408,7 +408,7 @@ pub struct NestCase {
 }
 
 pub const CHILD_STACK_KIB: u32 = 1024;
-pub const NEST_KINDS: &[&str] = &["paren", "abs", "subscript", "if-then", "if-else-if", "call", "paren-assign", "neg-paren", "for-bound", "dim", "def-chain", "def-chain-args"];
+pub const NEST_KINDS: &[&str] = &["paren", "abs", "subscript", "if-then", "if-else-if", "call", "paren-assign", "neg-paren", "for-bound", "dim", "def-chain", "def-chain-args", "unary-run", "not-run", "then-colon-run", "print-sep-run"];
 
 pub fn nest_text(kind: &str, d: usize) -> Vec<String> {
     match kind {
@@ -419,6 +419,11 @@ pub fn nest_text(kind: &str, d: usize) -> Vec<String> {
         "if-else-if" => vec![format!("10 {}PRINT 1", "IF 0 THEN PRINT 2 ELSE ".repeat(d))],
         "call" => vec!["5 DEF QQ(C) = C + 1".to_string(), format!("10 PRINT {}1{}", "QQ(".repeat(d), ")".repeat(d))],
         "paren-assign" => vec![format!("10 V({}1{}) = 1", "(".repeat(d), ")".repeat(d))],
+        // long unbroken runs of tokens that a recursive implementation might descend on
+        "unary-run" => vec![format!("10 PRINT {}1", "- ".repeat(d))],
+        "not-run" => vec![format!("10 PRINT {}1", "NOT ".repeat(d))],
+        "then-colon-run" => vec![format!("10 IF 0 THEN {}PRINT 1", ": ".repeat(d))],
+        "print-sep-run" => vec![format!("10 PRINT {}1", "; , ".repeat(d))],
         // 31 functions, each wrapping a call of the previous one in min(d, 95) parentheses:
         // every single line stays below any per-line nesting cap and the chain below the
         // frame cap; only their product is deep
@@ -495,7 +500,7 @@ pub fn child_nest(kind: &str, depth: usize, target: &str) -> i32 {
     }
 }
 
-fn check_nest(c: &NestCase, rec: &mut CaseRec) -> Verdict {
+pub fn check_nest(c: &NestCase, rec: &mut CaseRec) -> Verdict {
     let exe = match std::env::current_exe() {
         Ok(e) => e,
         Err(e) => return Verdict::fail("harness:no-exe", e.to_string()),
@@ -535,8 +540,8 @@ fn check_nest(c: &NestCase, rec: &mut CaseRec) -> Verdict {
     }
 }
 
-const DEPTHS_QUICK: &[u32] = &[10, 50, 99, 100, 101, 1000, 5000, 30000];
-const DEPTHS_THOROUGH: &[u32] = &[10, 50, 98, 99, 100, 101, 102, 200, 300, 500, 1000, 2000, 5000, 10000, 30000, 100000, 300000];
+pub const DEPTHS_QUICK: &[u32] = &[10, 50, 99, 100, 101, 1000, 5000, 30000];
+pub const DEPTHS_THOROUGH: &[u32] = &[10, 50, 98, 99, 100, 101, 102, 200, 300, 500, 1000, 2000, 5000, 10000, 30000, 100000, 300000];
 
 pub fn property() -> Property {
     let families: Vec<Box<dyn Family>> = vec![
